@@ -19,16 +19,14 @@ theorem exit_criterion (s : LState) (a : Ans) (hp : s.pc = .evalStop) (hw : s.cf
     (step s a).stopReached =
       (s.cfg.crit.eval s.status 0 s.cfg.keyCost || decide (s.cfg.maxFailures < s.status.numFailed)) := by
   rw [step_eq]
-  simp only [next, hp, hw, Option.isSome_none, Bool.false_eq_true, if_false, Pc.silent, Bool.true_or, if_true]
-  exact ⟨rfl, rfl⟩
+  simp [next, hp, hw, Pc.silent, stopCond]
 
 theorem exit_criterion_clock (s : LState) (t : Rat) (hp : s.pc = .clock) :
     (step s (.clock t)).pc = .loopHead ∧
     (step s (.clock t)).stopReached =
       (s.cfg.crit.eval s.status t s.cfg.keyCost || decide (s.cfg.maxFailures < s.status.numFailed)) := by
   rw [step_eq]
-  simp only [next, hp, Pc.silent, Bool.true_or, if_true]
-  exact ⟨rfl, rfl⟩
+  simp [next, hp, Pc.silent, stopCond]
 
 /-- **The `while` test**: after the stopping condition has been evaluated the loop goes on iff
 the condition is false, or trials are still running and `wait_trial_completion_when_stopping`
@@ -57,6 +55,99 @@ theorem exit_only (c : Cfg) (as : List Ans) (a : Ans) (hf : finPc (run (init c) 
     ((run (init c) as).pc = .afterUpd ∧
       ((run (init c) as).exhausted = true ∨ ((run (init c) as).cfg.wait = true ∧ (run (init c) as).stopReached = true))) ∨
     (step (run (init c) as) a).err.isSome = true := by
-  sorry
+  rw [step_pc] at hf'
+  have : (step (run (init c) as) a).err = (next (run (init c) as) a).err := by rw [step_eq]; split <;> rfl
+  rw [this]
+  exact next_into_fin _ a hf hf'
+
+/-- **No trial is started once the stopping condition holds.** Whenever the loop is inside
+`_schedule_new_tasks` (about to ask the backend for busy workers, to ask the scheduler for a
+suggestion, to start or to resume a trial), `stop_condition_reached` — the value of the
+stopping condition at the end of the previous iteration — is false. -/
+theorem no_start_after (c : Cfg) (as : List Ans) (h : startPc (run (init c) as).pc = true) :
+    (run (init c) as).stopReached = false :=
+  (run_inv (Inv := JInv) JInv_step as (init c) (JInv_init c)).j2 h
+
+/-- an iteration that begins with the stopping condition true only exists with
+`wait_trial_completion_when_stopping` -/
+theorem no_start_after_wait (c : Cfg) (as : List Ans) (h : iterPc (run (init c) as).pc = true)
+    (hs : (run (init c) as).stopReached = true) : c.wait = true := by
+  have := (run_inv (Inv := JInv) JInv_step as (init c) (JInv_init c)).j1 h hs
+  rwa [run_cfg] at this
+
+/-- **Overshoot.** With `max_num_trials_started = m` the number of trials the loop has started
+(recorded in the tuning status) never exceeds `m + n_workers` — at any point of any run
+obeying contract B, in particular when `run()` returns. -/
+theorem overshoot (c : Cfg) (m : Nat) (hm : c.crit.maxStarted = some m) (as : List Ans)
+    (hB : Along BOk (init c) as) : (run (init c) as).status.numStarted ≤ m + c.nWorkers := by
+  have := (overshoot_run c m hm as hB).o1
+  rwa [run_cfg] at this
+
+/-- while the stopping condition is false the budget itself is respected at the start of
+an iteration -/
+theorem overshoot_before (c : Cfg) (m : Nat) (hm : c.crit.maxStarted = some m) (as : List Ans)
+    (hB : Along BOk (init c) as) (hs : (run (init c) as).stopReached = false)
+    (hp : beforeSchedPc (run (init c) as).pc = true) : (run (init c) as).status.numStarted ≤ m :=
+  (overshoot_run c m hm as hB).o2 hs hp
+
+/-- **Nothing is left running.** When `run()` is over (`pc = done`) and no exception was raised
+inside the `finally` block itself, every trial that `stop_all` saw (`_all_trial_results`) is
+not in progress any more: its status was read as not-in-progress when its turn came, or
+`stop_trial` was issued for it and returned.  This holds for EVERY way the loop was left — in
+particular for an exception at any call of the loop (`Ans.raise` anywhere in `as`). -/
+theorem nothing_running (c : Cfg) (as : List Ans) (hp : (run (init c) as).pc = .done)
+    (he : (run (init c) as).err ≠ some .envFin) :
+    ∀ t ∈ (run (init c) as).visible, alookup t (run (init c) as).bst ≠ some .inProgress := by
+  intro t ht
+  have hF := (EF_run c as).2
+  rcases hF.stage (by rw [hp]; rfl) he t ht with ⟨h1, _⟩ | ⟨h1, _⟩ | h1
+  · rw [hp] at h1; cases h1
+  · rcases h1 with h1 | h1 <;> (rw [hp] at h1; cases h1)
+  · exact h1
+
+/-- an exception raised by any call inside the loop leads into the `finally` block (callbacks'
+`on_tuning_end` first) -/
+theorem exception_enters_finally (s : LState) (hc : (pending s) ≠ .tau) (hf : finPc s.pc = false) :
+    (step s .raise).pc = .finTuningEnd := by
+  rw [step_pc]
+  revert hc hf
+  unfold pending next
+  cases s.pc <;> simp [finPc, raiseFin]
+
+/-- **Results are stored before trials are stopped**: `stop_all` (its `_all_trial_results`) is
+only ever called right after the callbacks' `on_tuning_end` has returned, and at that moment
+the rows of the `StoreResultsCallback` are written. -/
+theorem results_stored (s : LState) (a : Ans) (h : (step s a).pc = .finAll) :
+    s.pc = .finTuningEnd ∧ (step s a).stored = if s.cfg.store then some s.rows else none := by
+  have hfl := step_flow s a
+  rw [h] at hfl
+  have hp : s.pc = .finTuningEnd := by
+    revert hfl; cases s.pc <;> simp [flow, succs]
+  refine ⟨hp, ?_⟩
+  have hst : (step s a).stored = (next s a).stored := by rw [step_eq]; split <;> rfl
+  rw [step_pc] at h
+  rw [hst]
+  revert h
+  simp only [next, hp]
+  cases a <;> simp [exitRaise]
+
+/-! ### counters -/
+
+/-- **Counters.** After `mark_running_job_as_stopped` no trial counts as running, and the
+counters partition the started trials: started = completed + failed + stopped + stopping + paused. -/
+theorem counters (ts : TStatus) :
+    ts.markStopped.numRunning = 0 ∧
+    ts.markStopped.numStarted = ts.numStarted ∧
+    ts.markStopped.numStarted =
+      ts.markStopped.numCompleted + ts.markStopped.numFailed + ts.markStopped.numIn (· == .stopped)
+      + ts.markStopped.numIn (· == .stopping) + ts.markStopped.numIn (· == .paused) := by
+  unfold TStatus.markStopped TStatus.numRunning TStatus.numStarted TStatus.numCompleted TStatus.numFailed TStatus.numIn
+  simp only []
+  induction ts.last with
+  | nil => simp
+  | cons kv l ih =>
+    obtain ⟨ih1, ih2, ih3⟩ := ih
+    obtain ⟨k, v⟩ := kv
+    cases v <;> simp_all [List.filter_cons] <;> omega
 
 end SyneTune.C12
